@@ -8,16 +8,17 @@
    and replayed into the real code (spec -> code).
 
    What TLC establishes here (the design-level statement of C04 for union-find):
-     * from the empty map (MALFORMED = FALSE) every script of calls is answered exactly as the
+     * from the empty map (mal = FALSE) every script of calls is answered exactly as the
        partition semantics demands and compression never changes the partition;
-     * for ARBITRARY parent maps (MALFORMED = TRUE; `new_from` accepts them) the same holds
+     * for ARBITRARY parent maps (mal = TRUE; `new_from` accepts them) the same holds
        EXCEPT that `find(x)` never leaves its first loop exactly when the walk from x enters
        a cycle of length >= 2 that x is not on (rho shape, UfRhoStart): RhoExact.
    The monitor flags that divergence as "find/rho-cycle" -- the model documents the finding
    instead of hiding it; any other rule break fails the model check. *)
 EXTENDS UnionFind, Json
 
-CONSTANTS Items, MaxOps, MALFORMED, EMIT
+CONSTANTS Items, MODES, MaxOpsWf, MaxOpsMal, EMIT
+\* MODES \subseteq BOOLEAN: FALSE = scripts from the empty map, TRUE = arbitrary (malformed) parent maps
 
 VARIABLES
     pm,      \* parent map: function [K -> Items], K \subseteq Items (the Cell map)
@@ -32,9 +33,10 @@ VARIABLES
     fstart,  \* parent map at the start of the current find (for RhoExact)
     hist,    \* returned values so far (-1 = diverged)
     pars,    \* parent map after each call
-    init0, script0
+    init0, script0,
+    mal      \* this behaviour starts from an arbitrary (possibly malformed) parent map
 
-ivars == <<pm, pc, script, cur, sub, mch, which, item, root, ra, steps, fstart, hist, pars, init0, script0>>
+ivars == <<pm, pc, script, cur, sub, mch, which, item, root, ra, steps, fstart, hist, pars, init0, script0, mal>>
 vars == <<mvars, ivars>>
 
 ToSeq(f) == LET ks == AscSeq(DOMAIN f) IN [i \in 1..Len(ks) |-> <<ks[i], f[ks[i]]>>]
@@ -44,18 +46,19 @@ Put(f, key, v) == [x \in DOMAIN f \cup {key} |-> IF x = key THEN v ELSE f[x]]
 Others == << <<<<1, 0>>, <<2, 1>>>>, <<<<0, 1>>, <<1, 2>>>>, <<<<2, 0>>, <<1, 0>>>>,
              <<<<0, 2>>, <<2, 0>>>>, <<<<1, 1>>, <<2, 0>>>>, <<<<0, 1>>>> >>
 
-Calls ==
-    IF MALFORMED
+Calls(m) ==
+    IF m
     THEN {<<"union", a, b>> : a \in Items, b \in Items} \cup {<<"same", a, b>> : a \in Items, b \in Items}
     ELSE {<<"union", p[1], p[2]>> : p \in {q \in Items \X Items : q[1] # q[2]}}
          \cup {<<"same", p[1], p[2]>> : p \in {q \in Items \X Items : q[1] < q[2]}}
          \cup {<<"merge", k, 0>> : k \in 1..Len(Others)}
 
-Scripts == UNION {[1..n -> Calls] : n \in 0..MaxOps}
-InitMaps == IF MALFORMED THEN UNION {[K -> Items] : K \in SUBSET Items} ELSE {<<>>}
+Scripts(m) == UNION {[1..n -> Calls(m)] : n \in 0..(IF m THEN MaxOpsMal ELSE MaxOpsWf)}
+InitMaps(m) == IF m THEN UNION {[K -> Items] : K \in SUBSET Items} ELSE {<<>>}
 
 Init ==
-    \E f \in InitMaps : \E sc \in Scripts :
+    \E m \in MODES : \E f \in InitMaps(m) : \E sc \in Scripts(m) :
+        /\ mal = m
         /\ MInit(ToSeq(f))
         /\ pm = f /\ pc = "idle" /\ script = sc /\ cur = <<"none", 0, 0>> /\ sub = <<>> /\ mch = 0
         /\ which = 0 /\ item = 0 /\ root = 0 /\ ra = 0 /\ steps = 0 /\ fstart = <<>>
@@ -92,7 +95,7 @@ Begin ==
                     /\ UNCHANGED <<pm, sub, mch, which, item, root, ra, steps, fstart>>
                ELSE /\ cur' = c /\ StartFind(c[2], 1)
                     /\ UNCHANGED <<mvars, pm, sub, mch, ra, hist, pars>>
-    /\ UNCHANGED <<init0, script0>>
+    /\ UNCHANGED <<init0, script0, mal>>
 
 \* one iteration of `while let Some(parent) = self.0.get(&root)`
 Loop1 ==
@@ -112,7 +115,7 @@ Loop1 ==
                  /\ script' = <<>> /\ pc' = "idle"
                  /\ UNCHANGED <<pm, root, steps>>
             ELSE root' = p /\ steps' = steps + 1 /\ UNCHANGED <<pm, pc, script, mvars, hist, pars>>
-    /\ UNCHANGED <<cur, sub, mch, which, item, ra, fstart, init0, script0>>
+    /\ UNCHANGED <<cur, sub, mch, which, item, ra, fstart, init0, script0, mal>>
 
 \* compression loop `while item != root` and the return of find
 Loop2 ==
@@ -150,7 +153,7 @@ Loop2 ==
                             /\ which' = 1 /\ item' = Head(sub)[1] /\ root' = Head(sub)[1]
                             /\ steps' = 0 /\ fstart' = ToSeq(np) /\ pc' = "l1"
                             /\ UNCHANGED <<mvars, script, ra, hist, pars>>
-    /\ UNCHANGED <<init0, script0>>
+    /\ UNCHANGED <<init0, script0, mal>>
 
 Finished == pc = "idle" /\ script = <<>>
 Done == Finished /\ UNCHANGED vars
@@ -162,7 +165,7 @@ Spec == Init /\ [][Next]_vars
 StartItem == IF which = 1 THEN cur[2] ELSE cur[3]
 
 \* the only rule the model may break is the documented divergence, and only on malformed maps
-ModelOK == bad = "" \/ (MALFORMED /\ bad = "find/rho-cycle")
+ModelOK == bad = "" \/ (mal /\ bad = "find/rho-cycle")
 \* converse: a find that leaves loop 1 did not start on a rho-start
 RhoExact == pc = "l2" => ~UfRhoStart(fstart, StartItem)
 \* unwrap() in loop 2 never fails; loop 1 never runs longer than the bound
